@@ -230,3 +230,17 @@ func StubURLParse(raw string) (*url.URL, error) {
 	}
 	return Havoc[*url.URL](n), nil
 }
+
+// EnvContext is a caller-supplied context in an arbitrary state: Err() answers nil or a cancellation error, independently
+// on every call (a context may be cancelled at any moment); Done() is a channel the harness never closes.
+type EnvContext struct{ Tag string }
+
+func (c EnvContext) Deadline() (deadline time.Time, ok bool) { return time.Time{}, false }
+func (c EnvContext) Done() <-chan struct{}                   { return nil }
+func (c EnvContext) Value(key any) any                       { return nil }
+func (c EnvContext) Err() error {
+	if Choose(Name(c.Tag+".ctx.cancelled"), 2) == 1 {
+		return NewEnvError("context canceled")
+	}
+	return nil
+}
